@@ -418,8 +418,13 @@ func cryptMsg(typ, shape string, seed int64) proto.Message {
 		}
 	}
 	max := 96
-	if shape == "big" {
+	switch shape {
+	case "big":
 		max = 700
+	case "huge":
+		// messages far beyond what an enrollment carries (large application parameters, many bundles): the
+		// envelope grows past 64 KiB, sometimes past a megabyte
+		max = []int{90_000, 300_000, 1_500_000}[rng.Intn(3)]
 	}
 	bs := func() []byte {
 		if rng.Intn(6) == 0 {
@@ -732,7 +737,7 @@ func cryptRoundtripOne(e *cryptEnv, cs cryptCase, sender, recv *cryptParty) {
 func cryptRoundtrip(e *cryptEnv) {
 	r := e.c.R
 	rng := e.c.Rng("crypt-roundtrip")
-	shapes := []string{"rand", "rand", "empty", "tiny", "rand", "big"}
+	shapes := []string{"rand", "rand", "empty", "tiny", "rand", "big", "huge"}
 	var cases []cryptCase
 	reps := e.c.Pick(1, 12)
 	for rep := 0; rep < reps; rep++ {
